@@ -64,8 +64,17 @@ func (con *Connection) EncryptedWrite(b []byte) (int, error) {
 
 	encryptedBytes, err := ioutil.ReadAll(encrypted)
 	n, err := con.connection.Write(encryptedBytes)
+	if err == nil && n == len(encryptedBytes) {
+		// The number of bytes taken from b is returned (io.Writer) – not the
+		// number of bytes on the wire. Writers like bufio.Writer and io.Copy
+		// fail when more than len(b) is reported.
+		return len(b), nil
+	}
+	if err == nil {
+		err = io.ErrShortWrite
+	}
 
-	return n, err
+	return 0, err
 }
 
 // DecryptedRead reads and decrypts bytes from the connection.
